@@ -26,6 +26,9 @@ Python behaviour mirrored as it is:
   (`vecDotVec = none`); `sum([...])` in `linear_exprs` starts from `0`;
 * a reaction whose index is in `non_precip_rids` contributes the row `-precipitate_stoich` and the
   constant `small` (class attribute: 0 for Lin/LinRel, 1e-35 for Square, exp(-36) for Log);
+* a system without reactions: `NumSysLin.f` (hence Square, LinRel) raises — ValueError (numpy cannot broadcast
+  `bases ** exponents` with an empty 1-D exponent array) for ns ≥ 2, TypeError (`prodpow` gives the scalar 1,
+  which `zip` cannot iterate) for ns ≤ 1; `NumSysLog.f` returns the conservation block;
 * `precipitate_stoich` raises NotImplementedError for two solids; with no solid it returns
   `net[-1]` (Python negative index; IndexError on an empty system).
 
@@ -283,6 +286,9 @@ def shapeOk (s : EqSystem) (y params : List α) : Bool :=
 def numSysLinF (s : EqSystem) (precipitates : List Bool) (small : α) (y params : List α) :
     Except String (List α) :=
   if !shapeOk s y params then .error "shape" else
+  -- no reaction: `stoichs()` is an empty 1-D array; `bases ** exponents` fails to broadcast for ns ≥ 2 (ValueError),
+  -- for ns ≤ 1 `prodpow` returns the scalar 1 and `zip(1, ks)` raises TypeError
+  if s.rxns.isEmpty then .error (if s.ns ≤ 1 then "TypeError" else "ValueError") else
   let rids := nonPrecipRids s precipitates
   let ks := eqConstants rids (eqParamsOf s params) small
   match stoichs s rids with
